@@ -57,8 +57,8 @@ CHECKS = {
              text='sufficient condition for race freedom under any schedule and thread count: disjoint write sets (caller-owned/fresh objects only) and reads of immutable data only; one known finding: setlocale in CompoundParser',
              note='no schedule enumerated, no race detector; malloc/free assumed thread-safe'),
  'C18': dict(tech=B + ' on the LLVM IR of a shim TU generated from the current cplusplus/xraylib++.h (one extern "C" entry per _XRL_FUNCTION instantiation); C functions are uninterpreted with the C03 contract; C++ exception runtime calls are modelled', cat='model_checking',
-             text='for _process_error and each of the 95 scalar _XRL_FUNCTION wrappers (const-T... and std::string overloads as the C prototype dictates), for all arguments and any behaviour of the C function allowed by its error contract: exactly one call of the C function of the same name with the wrapper\'s arguments in order and a NULL-initialised local error slot; C value returned unchanged when C succeeds; throws iff C set the error; bad_alloc/invalid_argument/runtime_error chosen by the code; message read before release; error released exactly once',
-             note='NOT covered: wrappers that build classes/vectors/strings/complex (compoundData, compoundDataNIST, radioNuclideData, Crystal::Struct, Get*List, AtomicNumberToSymbol, Refractive_Index, SymbolToAtomicNumber): libstdc++ container internals are outside the IR evaluator; exception constructors assumed not to throw; implicit argument conversions at user call sites (int passed for double) are not enumerated'),
+             text='for _process_error, each of the 95 _XRL_FUNCTION wrappers (const-T... and std::string overloads as the C prototype dictates) and the 22 Crystal::Struct member / namespace-level / hand-written wrappers that pass scalars through (Bragg_angle, Q_scattering_amplitude, F_H_StructureFactor(_Partial), UnitCellVolume, dSpacing, AddCrystal, Atomic_Factors, SymbolToAtomicNumber, Refractive_Index), for all arguments and any behaviour of the C function allowed by its error contract: exactly one call of the C function of the same name with the wrapper\'s arguments in order and a NULL-initialised local error slot; C value returned unchanged when C succeeds; throws iff C set the error; bad_alloc/invalid_argument/runtime_error chosen by the code; message read before release; error released exactly once',
+             note='NOT covered: wrappers that build classes/vectors/strings (compoundData, compoundDataNIST, radioNuclideData, Crystal::Struct constructors/destructor/GetCrystal, Get*List, AtomicNumberToSymbol): libstdc++ container internals are outside the IR evaluator; exception constructors assumed not to throw; implicit argument conversions at user call sites (int passed for double) are not enumerated'),
 }
 NA = {
  'C19': 'no symbolic engine for Java/JVM bytecode is installed (no JBMC/SPF); a hand-written Java->SMT translator for 5900 lines using ByteBuffer I/O, exceptions and collections is out of reach; see DESIGN.md C19',
